@@ -212,7 +212,7 @@ func c1Grammar(c *Ctx, rule string) {
 				case *ssa.Return:
 					if len(x.Results) > 0 {
 						last := x.Results[len(x.Results)-1]
-						if last.Type().String() == "error" {
+						if TStr(last.Type()) == "error" {
 							if nl, known := st.IsNil(last); !known || !nl {
 								return "!"
 							}
